@@ -51,14 +51,21 @@ def ofName? (s : String) : Option Source := all.find? (fun x => x.name == s)
 def table : List (String × Nat) := all.map (fun s => (s.name, s.ord))
 end Source
 
+/-- ghost state: who created a layer (nothing in the model branches on it) -/
+inductive Label
+  | none
+  | contract (k : String)
+  | function (k f : String)
+  deriving DecidableEq, Repr
+
 /-- One `Config` object without its parent link: `_source` and the keyword arguments it was built with.
 `none` is Python `None` (argparse namespaces carry `None` for every option not given).  `label` is ghost state
 (who created the layer); no function of the model reads it except to copy it. -/
 structure Layer (α : Type) where
   source : Source
   vals : List (String × Option α)
-  label : String := ""
-  deriving Repr
+  label : Label := .none
+  deriving DecidableEq, Repr
 
 /-- `object.__getattribute__(layer, name)` for a field name: the stored value, `None` when not passed -/
 def Layer.get {α} (l : Layer α) (name : String) : Option α :=
@@ -99,7 +106,7 @@ def getattr {α} (name : String) (c : Config α) : Except Err (Option α) :=
 
 /-- `Config.with_overrides(source, **overrides)`: `TypeError` from the dataclass constructor (unknown keyword, or one of the
 internal field names given twice) becomes `sys.exit(2)` -/
-def withOverrides {α} (c : Config α) (src : Source) (ov : List (String × Option α)) (label : String := "") :
+def withOverrides {α} (c : Config α) (src : Source) (ov : List (String × Option α)) (label : Label := .none) :
     Except Err (Config α) :=
   if ov.all (fun kv => isField kv.1) then .ok (⟨src, ov, label⟩ :: c) else .error .exit2
 
@@ -594,7 +601,7 @@ def tomlParseDict (doc : TomlDoc) : Except Err (List (String × Val)) :=
 /-- config-file layer of `load_config` -/
 def withConfigFile (c : Config Val) (doc : TomlDoc) : Except Err (Config Val) := do
   let ov ← tomlParseDict doc
-  withOverrides c .configFile (ov.map (fun kv => (kv.1, some kv.2))) "config_file"
+  withOverrides c .configFile (ov.map (fun kv => (kv.1, some kv.2)))
 
 /-! ### `parse_natspec` -/
 
@@ -693,7 +700,7 @@ def parseArgs (text : Str) : Except Err (List (String × Option Val)) :=
 
 /-- `with_natspec(args, name, natspec)`; `natspecText = none` when the artifact has no natspec entry for the contract
 (`if not contract_natspec`), `some text` = `natspec.get("text", "")` -/
-def withNatspecG {α} (parse : Str → Except Err (List (String × Option α))) (args : Config α) (label : String)
+def withNatspecG {α} (parse : Str → Except Err (List (String × Option α))) (args : Config α) (label : Label)
     (natspecText : Option Str) : Except Err (Config α) :=
   match natspecText with
   | none => .ok args
@@ -705,7 +712,7 @@ def withNatspecG {α} (parse : Str → Except Err (List (String × Option α))) 
       withOverrides args .contractAnnotation ov label
 
 /-- `with_devdoc(args, fn_sig, contract_json)`; `devdoc = parse_devdoc(...)` (`none` on `KeyError`) -/
-def withDevdocG {α} (parse : Str → Except Err (List (String × Option α))) (args : Config α) (label : String)
+def withDevdocG {α} (parse : Str → Except Err (List (String × Option α))) (args : Config α) (label : Label)
     (devdoc : Option Str) : Except Err (Config α) :=
   match devdoc with
   | none => .ok args
@@ -729,10 +736,10 @@ Each contract config is derived from `args`; each function config from *its cont
 def deriveAllG {α} (parse : Str → Except Err (List (String × Option α))) (args : Config α) (arts : List ContractArt) :
     List (String × String × Except Err (Config α)) :=
   arts.flatMap fun k =>
-    match withNatspecG parse args ("contract:" ++ k.name) k.natspec with
+    match withNatspecG parse args (.contract k.name) k.natspec with
     | .error e => k.funs.map (fun f => (k.name, f.1, .error e))
     | .ok contractArgs =>
-      k.funs.map fun f => (k.name, f.1, withDevdocG parse contractArgs ("function:" ++ k.name ++ "." ++ f.1) f.2)
+      k.funs.map fun f => (k.name, f.1, withDevdocG parse contractArgs (.function k.name f.1) f.2)
 
 def deriveAll := deriveAllG parseArgs
 
@@ -742,6 +749,6 @@ def loadConfig (dflt : Layer Val) (file : Option TomlDoc) (cli : List (String ×
   let c1 ← match file with
     | none => pure c0
     | some doc => withConfigFile c0 doc
-  withOverrides c1 .commandLine cli "command_line"
+  withOverrides c1 .commandLine cli
 
 end HalmosVerif.Model.Config
